@@ -666,7 +666,21 @@ func (fc *FuncCtx) callModifies(call *ast.CallExpr) []havocLoc {
 	if fn == nil {
 		return nil
 	}
-	c := fc.w.Contracts[fn.FullName()]
+	// the same resolution order as call(): no-ops, pools with an invariant, intrinsics, contracts, default
+	// library contracts (independent of which function happened to be verified first)
+	if fc.isNoOp(fn) {
+		return nil
+	}
+	key := fn.FullName()
+	if (key == "(*sync.Pool).Get" || key == "(*sync.Pool).Put") && recvExpr != nil && fc.w.PoolInvs[fc.globalKey(recvExpr)] != nil {
+		return nil
+	}
+	c := fc.w.Contracts[key]
+	if c == nil {
+		if _, isIntrinsic := fc.w.Intrinsics[key]; !isIntrinsic {
+			c = fc.w.defaultExtern(key, fn)
+		}
+	}
 	if c == nil {
 		return nil
 	}
